@@ -41,6 +41,8 @@ def run_cell(acc, rng, kind, cfgname, mode, assign):
     st_ = gen.gen_core(rng)
     thumb = dict((b, v) for b, v in assign).get(('cpsr', 5), 0)
     st_['cpsr'] = gen.gen_cpsr(rng, cfg, bool(thumb), mode=mode, e=rng.getrandbits(1))
+    if thumb and rng.random() < 0.3:
+        st_['cpsr'] |= 1 << 24          # J:T = 1:1, ThumbEE state (reachable through ENTERX): every entry clears J, return offsets are Thumb's
     for k in gen.SPSR_KEYS:
         st_[k] = gen.gen_spsr(rng, cfg)
     st_['elr_hyp'] = rng.getrandbits(32)
